@@ -35,11 +35,13 @@ def plan(tier, seed):
     return [dict(seed=seed, shard=i, n=n) for i in range(16)]
 
 
-def gen_pdo_cat(rng):
-    """returns (category bytes, [(idx, sub, bits)] in order)"""
+def gen_pdo_cat(rng, unaligned=False):
+    """returns (category bytes, [(idx, sub, bits)] in order); unaligned: one
+    multi-byte entry follows bit entries without a filling gap"""
     out = b""
     entries = []
     bitpos = 0
+    skip = [unaligned]
     for p in range(rng.randint(0, 5)):
         n = rng.randint(0, 6)
         ents = []
@@ -51,7 +53,9 @@ def gen_pdo_cat(rng):
                              bits))
                 bitpos += bits
             else:
-                if bitpos % 8:
+                if bitpos % 8 and skip[0]:
+                    skip[0] = False      # the one unaligned entry
+                elif bitpos % 8:
                     gap = 8 - bitpos % 8
                     ents.append((0, 0, gap))
                     bitpos += gap
@@ -65,7 +69,19 @@ def gen_pdo_cat(rng):
         for idx, sub, bits in ents:
             out += struct.pack("<HBBBBH", idx, sub, 0, 0, bits, 0)
         entries += ents
+    if unaligned and skip[0]:
+        return gen_pdo_cat(rng, True) if rng.random() < 0.9 else \
+            (out, entries)
     return out, entries
+
+
+def has_unaligned(entries):
+    bitpos = 0
+    for idx, sub, bits in entries or []:
+        if idx and bits >= 8 and bitpos % 8:
+            return True
+        bitpos += bits
+    return False
 
 
 def expected_pdos(entries, sm):
@@ -104,7 +120,10 @@ def gen_case(rng, with_mailbox):
         base += 0x100
     smdata = b"".join(struct.pack("<HHBBBB", off, size, m | rng.choice(
         [0, 0x20, 0x40]), 0, 1, 1 if m >= 4 else 2) for off, size, m in sms)
-    tx, txe = gen_pdo_cat(rng)
+    # a mapping the library cannot represent: it may refuse it, it must
+    # not place the entry somewhere else
+    unaligned = rng.random() < 0.05
+    tx, txe = gen_pdo_cat(rng, unaligned)
     rx, rxe = gen_pdo_cat(rng)
     order = []
     if sms:
@@ -266,7 +285,16 @@ def check_case(case, res, prior=None):
             problems.append(f"sync managers {got['sm']} vs {exp}")
         has_mbx = exp["mbx_out"][0] is not None and \
             exp["mbx_in"][0] is not None
-        if "pdo_error" in got:
+        unal = has_unaligned(txe) or has_unaligned(rxe)
+        if unal and "pdo_error" in got:
+            res.count("unaligned_mappings_refused")
+        elif unal and has_mbx == case["with_mailbox"]:
+            problems.append(
+                "unaligned-mapping-accepted: "
+                "a mapping with a multi-byte entry that does not start on a "
+                "byte boundary was accepted: the entry cannot be where the "
+                f"mapping puts it (recorded {sorted(got.get('pdos', {}).items())[:6]})")
+        elif "pdo_error" in got:
             problems.append(f"parse_pdos raised {got['pdo_error']}")
         elif has_mbx == case["with_mailbox"]:
             po, ob = expected_pdos(rxe or [], SyncManager.OUT)
